@@ -64,6 +64,9 @@ mod body {
         drop(d);
         d2.borrow_mut().write(i.z);
         assert!(keep.borrow().v == i.z);
+        // the converted handle alone keeps the object alive (C16: no dangling Reference from safe code)
+        drop(keep);
+        assert!(d2.borrow().read() == i.z);
     }
     pub fn rc_case(i: In) {
         let r = rc_ref_cell_reference(S { pad: i.pad, v: i.v0 });
@@ -91,7 +94,7 @@ mod proofs {
         In { pad: kani::any(), v0: kani::any(), x: kani::any(), y: kani::any(), z: kani::any() }
     }
 
-    //@ob fn="to_dyn! / __to_dyn_alloc! (RcRefCell arm)" at=src/reference.rs:373 clause="to_dyn! on an Rc-backed Reference expanded in a downstream crate that itself has a feature named alloc does not panic and aliases the source"
+    //@ob fn="to_dyn! / __to_dyn_alloc! (RcRefCell arm)" at=src/reference.rs:373 prop=C17,C16 clause="to_dyn! on an Rc-backed Reference expanded in a downstream crate that itself has a feature named alloc does not panic and aliases the source"
     #[kani::proof]
     fn c17_ext_to_dyn_rc_from_crate_with_features() {
         rc_case(any_in());
